@@ -138,6 +138,7 @@ def run(ctx):
         ctx.check(P + ':salt-generated-from-table', 'origin', 'generated salts are sized by HashAlgorithm::salt_len', bool(b.calls(r'HashAlgorithm::salt_len$')), function=b.path)
     # salt first + twins
     twins(ctx, P)
+    hashed_subpackets_all_fed(ctx, P)
     sig.salt_fed_at_every_hasher(ctx, P)
     sig.text_mode_selection(ctx, P)
 
@@ -157,6 +158,31 @@ def feed_sequence(b):
             ev.append((b.line(i), i, label, who))
     ev.sort()
     return [(l, w) for _, _, l, w in ev]
+
+
+def hashed_subpackets_all_fed(ctx, P):
+    """RFC 9580 §5.2.4: the whole hashed subpacket area enters the digest.  In hash_signature_data no iteration over the hashed
+    subpackets can come back to the loop head without having serialised the subpacket into the hasher (or having failed)."""
+    b = ctx.body(CFG + 'hash_signature_data')
+    if b is None:
+        return
+    sinks = [i for i, t in b.calls(r'Serialize::to_writer$') if 'Subpacket' in t['f'].get('selfty', '') or 'Subpacket' in (t['f'].get('res') or '')]
+    heads = call_blocks(b, r'Iterator::next$')
+    n = 0
+    bad = None
+    for h in heads:
+        body = b.reach_from([j for j, _ in b.succ(h)])
+        if h not in body:
+            continue
+        mine = [x for x in sinks if x in body and h in b.reach_from([b.blocks[x]['t']['t']])]
+        if not mine:
+            continue
+        n += 1
+        skip = b.reach_from([j for j, _ in b.succ(h)], removed=frozenset(mine))
+        if h in skip:
+            bad = b.find_path(b.blocks[h]['t']['t'], {h}, removed=frozenset(mine))
+    ctx.check(P + ':hashed-area:every-subpacket-fed', 'R-dom', 'every iteration over the hashed subpackets serialises the subpacket into the digest (no skipping `continue`)',
+              n >= 1 and bad is None, function=b.path, witness=fmt_path(b, bad) if bad else None, count=n)
 
 
 def twins(ctx, P):
